@@ -878,6 +878,44 @@ def r13(k: Kit) -> None:
                       g.describe_path(w) if w else None)
 
 
+def r14(k: Kit) -> None:
+    """Source and destination are not mixed up on the way to the wire."""
+    rep = k.rep
+    idx = k.idx
+    rep.rule('C12.R14', 'every call of SFTPClientHandler.copy_data passes, '
+             'in the read_from_* positions, expressions about the source '
+             '(src / read_from / offset of the block) and in the write_to_* '
+             'positions expressions about the destination: a range copied '
+             'to another offset of the destination must land there')
+    callee = k.func('sftp.SFTPClientHandler.copy_data')
+    params = [p for p in callee.params if p != 'self']
+    n = 0
+    for fi in idx.iter_funcs(['sftp']):
+        for c in ast.walk(fi.node):
+            if not (isinstance(c, ast.Call) and is_call(c, 'copy_data') and
+                    len(c.args) == len(params)):
+                continue
+            if fi.qual == callee.qual:
+                continue
+            n += 1
+            bad = None
+            for pname, a in zip(params, c.args):
+                txt = norm(a)
+                role = 'src' if pname.startswith('read_from') else 'dst'
+                other = 'dst' if role == 'src' else 'src'
+                names = names_read(a) | {txt}
+                if any(other in x for x in names) and \
+                        not any(role in x for x in names):
+                    bad = bad or f'{pname} is given `{txt}`'
+            rep.check(bad is None, 'C12.R14',
+                      key(fi, f'copy_data arguments L{c.lineno}'),
+                      'source values in read_from_*, destination values in '
+                      'write_to_*', f'{bad}: the copied range is written at '
+                      'the wrong place in the destination and success is '
+                      'reported', fi.loc(c))
+    rep.floor('C12.R14', 'copy_data call sites', n, 1)
+
+
 def run(idx, rep, tier):
     k = Kit(idx, rep)
     rep.assumptions += NOT_DECIDED
@@ -894,3 +932,4 @@ def run(idx, rep, tier):
     r11(k)
     r12(k)
     r13(k)
+    r14(k)
